@@ -33,8 +33,26 @@ import uuid
 from core import framework as fw
 from core import sexp
 
-NAMES = ['pa', 'pb', 'pc']
-VERSIONS = ['0.1.dev1', '0.1', '0.9', '0.10', '1.0rc1', '1.0', '1.0.post1', '2']  # ascending PEP 440, canonical text
+# project keys: forml compares them as plain strings; the last three are PEP 503 spelling variants of one another (three
+# different projects for forml)
+NAMES = ['pa', 'pb', 'pc', 'my-proj', 'my_proj', 'My.Proj']
+VARIANTS = [3, 4, 5]
+# ascending PEP 440 (index = rank), canonical text; a step names a version by its rank or by an alternative spelling
+VERSIONS = ['0.1.dev1', '0.1', '0.9', '0.10', '1.0rc1', '1.0', '1.0+loc', '1.0.post1', '2', '1!0.1']
+ALT = {'0.1.0': 1, '1.0.0rc1': 4, '1.0.0': 5, '1.0.0.0': 5, '1.0.0.post1': 7, '2.0': 8, '2.0.0': 8, '1!0.1.0': 9}
+SPELLINGS = list(VERSIONS) + sorted(ALT)
+
+
+def _ver(v) -> str:
+    """the version text of a step's version field (rank or spelling)"""
+    return VERSIONS[v] if isinstance(v, int) else v
+
+
+def _rank(v):
+    """PEP 440 rank of a step's version field resp. of a version text found on disk / in a listing"""
+    if isinstance(v, int):
+        return v
+    return VERSIONS.index(v) if v in VERSIONS else ALT.get(v, v)
 MEMBERS = ['__4ml__.py', 'foo.py', 'bar.py']  # member index of a directory package = position here
 _BASE = tempfile.mkdtemp(prefix='verif-c05-')
 atexit.register(shutil.rmtree, _BASE, ignore_errors=True)
@@ -244,16 +262,18 @@ class _Proxy:
 _PACKAGES: dict = {}
 
 
-def _package(name: str, vidx: int, kind: str):
-    """(prj.Package, model pkg) of project `name`, version VERSIONS[vidx]; 'file' = .4ml zip, 'dir' = source tree."""
+def _package(name: str, vidx, kind: str):
+    """(prj.Package, model pkg) of project `name`, version `vidx` (rank or spelling); 'file' = .4ml zip, 'dir' = source tree."""
     from forml import project as prj
 
-    key = (name, vidx, kind)
+    text = _ver(vidx)
+    key = (name, text, kind)
     if key not in _PACKAGES:
-        base = pathlib.Path(_BASE) / 'pkg' / f'{name}-{vidx}-{kind}'
+        base = pathlib.Path(_BASE) / 'pkg' / f'{name}-{SPELLINGS.index(text)}-{kind}'
+        vidx = SPELLINGS.index(text)
         src = base / 'src'
         src.mkdir(parents=True)
-        manifest = prj.Manifest(name, VERSIONS[vidx], 'foo')
+        manifest = prj.Manifest(name, text, 'foo')
         (src / 'foo.py').write_text(f'X = {vidx}\n')
         if kind == 'file':
             package = prj.Package.create(src, manifest, base / f'{name}.4ml')
@@ -270,11 +290,18 @@ def _package(name: str, vidx: int, kind: str):
 
 
 def _clear_caches():
+    """What a fresh process starts with: no cached tags / states / artifacts and no memoised registry paths (the
+    `lru_cache`s on posix.Path are keyed by *equal* keys, so within one process the first spelling of a version wins)."""
     from forml.io.asset._directory.level import major, minor
+    from forml.provider.registry.filesystem import posix
 
     minor.TAGS.clear()
     minor.STATES.clear()
     major.ARTIFACTS.clear()
+    for method in ('project', 'release', 'generation', 'package', 'state', 'tag'):
+        cached = getattr(posix.Path, method, None)
+        if hasattr(cached, 'cache_clear'):
+            cached.cache_clear()
 
 
 def _err(exc: BaseException) -> str:
@@ -307,8 +334,8 @@ def _canon_path(parts: tuple) -> list:
         seg = ['other', name]
         if depth == 0 and name in NAMES:
             seg = ['proj', NAMES.index(name)]
-        elif depth == 1 and name in VERSIONS:
-            seg = ['rel', VERSIONS.index(name)]
+        elif depth == 1 and isinstance(_rank(name), int):
+            seg = ['rel', _rank(name)]
         elif depth == 2:
             if name == '.stage':
                 seg = 'stage'
@@ -431,10 +458,15 @@ def _do_step(root: str, step: list, sid0: int, crash_at=None, cut=False, clear=T
                 if step[0] == 'publish':
                     _, dproj, name, vidx, kind = step
                     package, _ = _package(NAMES[name], vidx, kind)
-                    directory.get(NAMES[dproj]).put(package)
+                    if (_rank(vidx) + name) % 2:  # the same through the runtime facade
+                        from forml.runtime import _pad
+
+                        _pad.Repo(registry).publish(NAMES[dproj], package)
+                    else:
+                        directory.get(NAMES[dproj]).put(package)
                 else:
                     _, proj, vidx, ordinal, states = step
-                    generation = directory.get(NAMES[proj]).get(VERSIONS[vidx]).get(None)
+                    generation = directory.get(NAMES[proj]).get(_ver(vidx)).get(None)
                     stamp = datetime.datetime(2020, 1, 1) + datetime.timedelta(seconds=ordinal)
                     tag = asset.Tag(training=asset.Tag.Training(stamp, ordinal))
                     accessor = asset.State(generation, [uuid.UUID(int=10**6 + i) for i in range(len(states))], tag)
@@ -468,12 +500,13 @@ def _read_view(root: str, clear: bool = True) -> list:
         p = NAMES.index(pkey) if pkey in NAMES else str(pkey)
         try:
             lkey = str(project.get(None).key)
-            facts.append(['latest-rel', p, VERSIONS.index(lkey) if lkey in VERSIONS else lkey])
+            facts.append(['latest-rel', p, _rank(lkey)])
         except Exception as exc:  # pylint: disable=broad-except
             facts.append(['latest-rel', p, 'error:' + type(exc).__name__])
         for rkey in project.list():
             release = project.get(rkey)
-            v = VERSIONS.index(str(rkey)) if str(rkey) in VERSIONS else str(rkey)
+            v = _rank(str(rkey))
+            facts.append(['latest-spelling', p, v, str(rkey)])  # how the listed release is spelt (not part of the diffs)
             try:
                 facts.append(['latest-gen', p, v, int(release.get(None).key)])
             except asset.Level.Listing.Empty:
@@ -675,6 +708,7 @@ def corrupt_items(view) -> list:
 def oracle_step(step, outcome, before, after) -> list:
     """Append-only / gap-free / monotonic between the views around one completed step. [(what, signature)]."""
     out = list(corrupt_items(after))
+    spellings = [f for f in before if f[0] == 'latest-spelling']
     before = [f for f in before if not f[0].startswith('latest')]
     after = [f for f in after if not f[0].startswith('latest')]
     missing = [f for f in before if f not in after]
@@ -692,26 +726,33 @@ def oracle_step(step, outcome, before, after) -> list:
             out.append((f'step failed with {outcome} but {new[0][:4]} appeared', 'failed-step-changed-view'))
         return out
     if step[0] == 'publish':
-        _, _, name, vidx, kind = step
+        _, _, name, spelt, kind = step
+        vidx = _rank(spelt)
         older = [v for (p, v) in rb if p == name]
         if any(not vidx > v for v in older):
-            out.append((f'release {VERSIONS[vidx]} of {NAMES[name]} accepted although {[VERSIONS[v] for v in older]} exist',
+            out.append((f'release {_ver(spelt)} of {NAMES[name]} accepted although {[VERSIONS[v] for v in older]} exist',
                         'release-not-monotonic'))
-        _, model = _package(NAMES[name], vidx, kind)
+        _, model = _package(NAMES[name], spelt, kind)
         if model[0] == 'file':
             want = [['rel', name, vidx, ['file', model[1]], 'ok']]
         else:
             want = [['rel', name, vidx, 'dir', 'ok']] + [['member', name, vidx, i, ['file', b]] for i, b in model[1]]
         if sorted(new, key=repr) != sorted(want, key=repr):
-            out.append((f'publish of {NAMES[name]}-{VERSIONS[vidx]} added {[f[:4] for f in new]}', 'publish-wrong-content'))
+            out.append((f'publish of {NAMES[name]}-{_ver(spelt)} added {[f[:4] for f in new]}', 'publish-wrong-content'))
     else:
-        _, proj, vidx, ordinal, states = step
+        _, proj, spelt, ordinal, states = step
+        vidx = _rank(spelt)
         old = sorted(k[2] for k in gb if k[:2] == (proj, vidx))
         number = (old[-1] + 1) if old else 1
         newgens = [f for f in new if f[0] == 'gen']
         if len(newgens) != 1 or newgens[0][1:4] != [proj, vidx, number]:
-            out.append((f'training of {proj}/{vidx} (generations {old}) added {[f[1:4] for f in newgens]}',
-                        'generation-numbering'))
+            listed = [f[3] for f in spellings if f[1:3] == [proj, vidx]]
+            if not newgens and listed and listed[0] != _ver(spelt):
+                out.append((f'training of release {_ver(spelt)} of {NAMES[proj]} (listed, spelt {listed[0]}: the same PEP 440 '
+                            f'version) succeeded but a fresh reader finds no new generation', 'training-lost-version-spelling'))
+            else:
+                out.append((f'training of {proj}/{vidx} (generations {old}) added {[f[1:4] for f in newgens]}',
+                            'generation-numbering'))
         else:
             tag = newgens[0][4]
             got = [f[5] for f in new if f[0] == 'state']
@@ -746,12 +787,15 @@ class C05(fw.Check):
     DRIVER = 'drv_c05'
     RULE = ('histories of publish(dirProject, name, version, file|tree package) / train(project, release, 0..3 states) '
             'over 3 project names x 8 PEP 440 versions: corpus, random (length 2..7, mostly valid: increasing versions, '
-            'existing releases; a malformed share: lower/equal versions, unknown projects/releases, name mismatch), and in '
-            'thorough every history of <= 4 steps over 2 projects x 2 releases. Every step is re-run from the snapshot before '
-            'it with a process death after each completed micro-operation and half-way through each write. One case = one '
-            '(history prefix, crash point); distinct by (history prefix, step index, k, cut); non-trivial when the step '
-            'performs at least one micro-operation. Oracle on the real views: append-only, gap-free, monotonic, crashed view '
-            '= previous or complete new view and nothing listed unreadable.')
+            'existing releases; a malformed share: lower/equal versions, unknown projects/releases, name mismatch), '
+            'crash-recovery histories (corpus + random: up to 3 steps are first killed at a random micro-operation, possibly '
+            'inside a write, on the live tree and mostly retried), and in thorough every history of <= 4 steps over 2 projects '
+            'x 2 releases. Every plain step is re-run from the snapshot before it with a process death after each completed '
+            'micro-operation and half-way through each write. One case = one (history prefix, crash point) / one step / one '
+            'process death inside a history / one long-lived-reader read; distinct by (history prefix, step index, k, cut); '
+            'non-trivial when the step performs at least one micro-operation. Oracle on the real views: append-only, gap-free, '
+            'monotonic, implicit keys = highest listed, crashed view = previous or complete new view, nothing listed unreadable, '
+            'long-lived reader = fresh reader.')
     TRUSTED = [
         'POSIX semantics assumed by the model: rename atomic, a created directory entry is visible, write may stop after '
         'any prefix; process death only (no fsync in the code: power loss is not claimed)',
@@ -760,10 +804,12 @@ class C05(fw.Check):
         'package content is opaque bytes; "readable" on the real side = Registry.pull returns a package with the listed '
         'name and version',
         'crash injection = BaseException raised from wrapped os.mkdir/os.rename/os.replace/os.unlink/os.rmdir/io.open/'
-        'file.write/shutil.copyfile (copystat and other metadata calls are not micro-operations of the model)',
+        'file.write/shutil.copyfile/shutil.rmtree (copystat and other metadata calls are not micro-operations of the model; '
+        'rmtree of a leftover temporary tree is one step); the raw directory tree after every step and every crash is '
+        'compared with the model tree, so a file-system effect that bypasses the recorder is seen (not injected)',
     ]
-    ASSUMPTIONS = ['single writer (histories, not interleavings)', 'uuid4 state ids are fresh',
-                   'a crash ends the history (recovery after a crash is not part of the statement)']
+    ASSUMPTIONS = ['single writer (histories and crash-recovery histories, not interleavings of concurrent writers)',
+                   'uuid4 state ids are fresh']
 
     # ---- generation --------------------------------------------------------------------------------------------
     def _corpus(self):
@@ -779,25 +825,46 @@ class C05(fw.Check):
             [['publish', 0, 0, 1, 'file'], ['train', 0, 1, 1, []], ['train', 0, 1, 2, []]],
             [['publish', 0, 0, 4, 'file'], ['publish', 0, 1, 5, 'file']],  # name mismatch on a listed project
             [['publish', 0, 0, 3, 'file'], ['publish', 2, 0, 1, 'file']],  # older release through an unlisted project key
+            # project keys that are spelling variants (PEP 503) of the manifest name: a lower / an equal version of my-proj
+            # addressed as my_proj / My.Proj
+            [['publish', 3, 3, 8, 'file'], ['publish', 4, 3, 5, 'file'], ['publish', 5, 3, 8, 'dir'], ['publish', 3, 3, 9, 'file']],
+            [['publish', 3, 3, 5, 'dir'], ['train', 3, 5, 1, s1], ['publish', 5, 3, 5, 'file'], ['train', 4, 5, 2, s1]],
+            # spellings of one version: 1.0.0 == 1.0 == 1.0.0.0 (refused as not greater; trainings address the same release),
+            # local version above, epoch above everything, nothing below accepted afterwards
+            [['publish', 0, 0, '1.0.0', 'file'], ['train', 0, 5, 1, s1], ['publish', 0, 0, 5, 'file'],
+             ['train', 0, '1.0.0.0', 2, s2], ['train', 0, '1.0.0', 3, s1]],
+            [['publish', 0, 0, 5, 'file'], ['publish', 0, 0, '1.0.0', 'dir'], ['publish', 0, 0, 6, 'file'],
+             ['publish', 0, 0, '1!0.1.0', 'file'], ['publish', 0, 0, 8, 'file'], ['train', 0, 9, 1, s1]],
+            [['publish', 1, 1, '2.0', 'dir'], ['train', 1, 8, 1, s2], ['train', 1, '2.0.0', 2, []], ['publish', 1, 1, 8, 'file']],
         ]
+
+    def _spell(self, rank: int, share: float):
+        """the rank itself (canonical text) or, with probability `share`, another spelling of the same version"""
+        alts = [t for t, r in sorted(ALT.items()) if r == rank]
+        return self.rng.choice(alts) if alts and self.rng.random() < share else rank
 
     def _random_history(self):
         rng = self.rng
         length = rng.randint(2, 7)
-        known: dict = {}  # project -> versions published (believed)
+        known: dict = {}  # project -> ranks published (believed)
         hist = []
         for _ in range(length):
             if not known or rng.random() < 0.35:
-                name = rng.choice([0, 0, 1, 1, 2])
+                name = rng.choice([0, 0, 1, 2, 3, 3, 4, 4])
                 have = known.get(name, [])
-                if rng.random() < 0.8:
+                if name in VARIANTS and rng.random() < 0.35:
+                    dproj = rng.choice([v for v in VARIANTS if v != name])  # a spelling variant of the manifest name
+                else:
+                    dproj = name if rng.random() < 0.93 else rng.choice([0, 1, 2])
+                # mostly a greater version through the package's own key; through a foreign key (to be refused whatever
+                # the version) mostly a version that is not greater than what the project already has
+                if rng.random() < (0.8 if dproj == name else 0.35):
                     cand = [v for v in range(len(VERSIONS)) if not have or v > max(have)]
                     vidx = rng.choice(cand) if cand else rng.randrange(len(VERSIONS))
                 else:
-                    vidx = rng.randrange(len(VERSIONS))
-                dproj = name if rng.random() < 0.93 else rng.choice([0, 1, 2])
+                    vidx = rng.choice(have) if have and rng.random() < 0.5 else rng.randrange(len(VERSIONS))
                 kind = rng.choice(['file', 'file', 'dir'])
-                hist.append(['publish', dproj, name, vidx, kind])
+                hist.append(['publish', dproj, name, self._spell(vidx, 0.25), kind])
                 if dproj == name and (not have or vidx > max(have)):
                     known.setdefault(name, []).append(vidx)
             else:
@@ -805,10 +872,32 @@ class C05(fw.Check):
                     proj = rng.choice(list(known))
                     vidx = rng.choice(known[proj])
                 else:
-                    proj, vidx = rng.choice([0, 1, 2]), rng.randrange(len(VERSIONS))
+                    proj, vidx = rng.choice([0, 1, 2, 3, 4, 5]), rng.randrange(len(VERSIONS))
                 nstates = rng.choice([0, 1, 1, 2, 2, 3])
                 states = [[rng.randrange(256) for _ in range(rng.randint(1, 5))] for _ in range(nstates)]
-                hist.append(['train', proj, vidx, len(hist) + 1, states])
+                hist.append(['train', proj, self._spell(vidx, 0.25), len(hist) + 1, states])
+        return hist
+
+    def _random_foreign_key_history(self):
+        """the malformed stream around `Project.put`: a project with a release, then packages of that project (lower,
+        equal, greater versions, other spellings) put through other project keys — spelling variants of the name, other
+        names, listed or not — and through its own"""
+        rng = self.rng
+        name = rng.choice([0, 3, 3, 4, 5])
+        others = [v for v in VARIANTS if v != name] if name in VARIANTS else [1, 2, 3]
+        top = rng.randrange(2, len(VERSIONS))
+        hist = [['publish', name, name, self._spell(top, 0.2), rng.choice(['file', 'dir'])]]
+        if rng.random() < 0.5:
+            hist.append(['train', name, self._spell(top, 0.2), 1, [[rng.randrange(256)]]])
+        if rng.random() < 0.4:  # the foreign key is itself a listed project
+            other = rng.choice(others)
+            hist.append(['publish', other, other, rng.randrange(len(VERSIONS)), 'file'])
+        for _ in range(rng.randint(1, 3)):
+            key = rng.choice(others + others + [name])
+            vidx = rng.choice([rng.randrange(0, top + 1), top, rng.randrange(len(VERSIONS))])
+            hist.append(['publish', key, name, self._spell(vidx, 0.2), rng.choice(['file', 'file', 'dir'])])
+        if rng.random() < 0.5:
+            hist.append(['train', name, top, 9, [[1], [2, 3]]])
         return hist
 
     def _random_recovery_history(self):
@@ -816,7 +905,15 @@ class C05(fw.Check):
         and then — mostly — retried by a new process"""
         rng = self.rng
         out, ncrash = [], 0
-        for step in self._random_history():
+        first: dict = {}
+        base = []
+        for step in self._random_history():  # the model has one directory per version: keep one spelling per (project, version)
+            i = 3 if step[0] == 'publish' else 2
+            proj = step[2] if step[0] == 'publish' else step[1]
+            step = list(step)
+            step[i] = first.setdefault((proj, _rank(step[i])), step[i])
+            base.append(step)
+        for step in base:
             if ncrash < 3 and rng.random() < 0.4:
                 out.append(['crash', step, rng.random(), rng.random() < 0.3])
                 ncrash += 1
@@ -857,8 +954,8 @@ class C05(fw.Check):
         """state ids: the real code draws uuid4 (here: a counter) per dump it reaches; the model is given the same ids"""
         def one(s, sid):
             if s[0] == 'publish':
-                return ['publish', s[1], s[2], s[3], _package(NAMES[s[2]], s[3], s[4])[1]]
-            return ['train', s[1], s[2], s[3], [[sid + j, list(b)] for j, b in enumerate(s[4])]]
+                return ['publish', s[1], s[2], _rank(s[3]), _package(NAMES[s[2]], s[3], s[4])[1]]
+            return ['train', s[1], _rank(s[2]), s[3], [[sid + j, list(b)] for j, b in enumerate(s[4])]]
 
         out = []
         for ev, sid in zip(events, sid_start):
@@ -1026,7 +1123,7 @@ class C05(fw.Check):
             for pkey in directory.list():
                 for rkey in directory.get(pkey).list():
                     release = directory.get(pkey).get(rkey)
-                    p, v = NAMES.index(pkey), VERSIONS.index(str(rkey))
+                    p, v = NAMES.index(pkey), _rank(str(rkey))
                     facts.append(['rel', p, v, 'memory', 'ok'])
                     for gkey in release.list():
                         generation = release.get(gkey)
@@ -1054,7 +1151,7 @@ class C05(fw.Check):
                         if step[0] == 'publish':
                             directory.get(NAMES[step[1]]).put(_package(NAMES[step[2]], step[3], 'file')[0])
                         else:
-                            generation = directory.get(NAMES[step[1]]).get(VERSIONS[step[2]]).get(None)
+                            generation = directory.get(NAMES[step[1]]).get(_ver(step[2])).get(None)
                             stamp = datetime.datetime(2020, 1, 1) + datetime.timedelta(seconds=step[3])
                             accessor = asset.State(generation, [uuid.UUID(int=10**6 + j) for j in range(len(step[4]))],
                                                    asset.Tag(training=asset.Tag.Training(stamp, step[3])))
@@ -1065,7 +1162,7 @@ class C05(fw.Check):
                     self.case(('volatile', repr(hist[: i + 1])), f'volatile {step[0]} -> {outcome}', nontrivial=True)
                     for what, sig in oracle_step(step, outcome, before, after):
                         if sig == 'publish-wrong-content':  # packages are not stored by the volatile registry
-                            want = ['rel', step[2], step[3], 'memory', 'ok']
+                            want = ['rel', step[2], _rank(step[3]), 'memory', 'ok']
                             if [f for f in after if f not in before] == [want]:
                                 continue
                         self.violate('volatile registry: ' + what, {'history': hist[: i + 1], 'registry': 'volatile'},
@@ -1077,15 +1174,17 @@ class C05(fw.Check):
     # ---- entry points ----------------------------------------------------------------------------------------
     def correspondence(self):
         for name in NAMES:  # before forking: the workers and the oracle must see the very same package bytes
-            for vidx in range(len(VERSIONS)):
+            for text in SPELLINGS:
                 for kind in ('file', 'dir'):
-                    _package(name, vidx, kind)
+                    _package(name, text, kind)
         impl = self._detect_impl()
         self.extra['implementation_variant'] = {'staged': impl[0], 'keyFirst': impl[1]}
         self.notes.append(f'tree under test: tag/package written {"via temporary + rename" if impl[0] else "in place"}; '
                           f'Project.put checks the project key {"first" if impl[1] else "only for listed projects"} '
                           f'(model variant Impl.mk {str(impl[0]).lower()} {str(impl[1]).lower()})')
-        histories = self._corpus() + [self._random_history() for _ in range(self.n(60, 700))]
+        self._planted_divergence(impl)
+        histories = self._corpus() + [self._random_history() for _ in range(self.n(60, 700))] \
+            + [self._random_foreign_key_history() for _ in range(self.n(25, 300))]
         nlong = len(self._corpus()) + self.n(30, 200)  # these are also replayed by a long-lived reader
         recovery = self._recovery_corpus() + [self._random_recovery_history() for _ in range(self.n(40, 500))]
         exhaustive = [] if self.quick else list(self._exhaustive(4))
@@ -1108,6 +1207,19 @@ class C05(fw.Check):
         self._volatile(self._corpus() + [self._random_history() for _ in range(self.n(20, 200))])
         if not self.quick:
             self._fresh_process(histories[:7] + histories[7:7 + 30] + recovery[:20])
+
+    def _planted_divergence(self, impl):
+        """Self-test of the diff: the same real run compared with the *other* model variant (tag / package written in
+        place resp. via a temporary) must be reported as diverging in trace and in crashed views / trees."""
+        r = run_history([['publish', 0, 0, 1, 'file'], ['train', 0, 1, 1, [[4], [5, 6]]]], crash_points=True)
+        before = len(self.divergences)
+        self._compare([r], (not impl[0], impl[1]))
+        planted = self.divergences[before:]
+        del self.divergences[before:]
+        kinds = {d.what for d in planted}
+        if 'micro-operation trace' not in kinds or not any(k.startswith(('reader view', 'raw directory tree')) for k in kinds):
+            raise fw.MachineryError(f'planted model divergence not detected by the correspondence diff (got {sorted(kinds)})')
+        self.extra['planted_divergence_selftest'] = sorted(kinds)
 
     def _fresh_process(self, histories):
         """The reader in a fresh interpreter (no cache can survive): same view as the in-process fresh reader."""
